@@ -2,7 +2,7 @@
    ONLY statements: each theorem is closed by `exact` of a lemma proved elsewhere and followed by Print Assumptions. *)
 From Coq Require Import ZArith NArith List Bool Lia Permutation FMapPositive.
 Import ListNotations.
-Require Import Base Strings Num Builtins Interp Machine Spec HeapFacts Refine1 Refine2 Refine3 Refine4 RelA RelB RelC RunG ShortCircuit.
+Require Import Base Strings Num Builtins Interp Machine Spec HeapFacts Refine1 Refine2 Refine3 Refine4 RelA RelB RelC RunG ShortCircuit SeqProofs CallRules.
 
 (* two programs equal except at sub-expressions (related by ANY relation `hole`) that the first run never evaluates nor inspects give the same result and the same effects, whatever stands in those positions (a throw, a divergent call, a print) *)
 Theorem hole_irrelevant (hole : ast -> ast -> Prop) fuel prog prog' stdin hf wf r d :
@@ -51,4 +51,22 @@ Theorem index_returns_element_unevaluated (rec : list positive -> heap -> world 
   runG rec value ip h w (apply_body (ESeq (VList l)) sp [VInt i]) = DoneG h w (inl x) 0.
 Proof. exact (ShortCircuit.index_returns_element_unevaluated rec sp l i x ip h w). Qed.
 Print Assumptions index_returns_element_unevaluated.
+
+(* pipes: a stage's result goes to the next stage as it was returned - nothing between the stages evaluates it (pipe_spec has no demand between stages) *)
+Theorem call_pipe rec ip h w sp i es argv :
+  runG rec value ip h w (apply_body (EFun (FPipe i es)) sp argv) = pipe_spec rec ip sp es h w argv.
+Proof. exact (CallRules.call_pipe rec ip h w sp i es argv). Qed.
+Print Assumptions call_pipe.
+
+Theorem call_spread rec ip h w sp i e argv :
+  runG rec value ip h w (apply_body (EFun (FSpread i e)) sp argv) =
+  thenG (of_out (rec ip h w (TComp (apply_body e sp [VList argv])))) (fun h1 w1 x => DoneG h1 w1 (inl x) 0).
+Proof. exact (CallRules.call_spread rec ip h w sp i e argv). Qed.
+Print Assumptions call_spread.
+
+Theorem call_collect_list rec ip h w sp i e l :
+  runG rec value ip h w (apply_body (EFun (FCollect i e)) sp [VList l]) =
+  thenG (of_out (rec ip h w (TComp (apply_body e sp l)))) (fun h1 w1 x => DoneG h1 w1 (inl x) 0).
+Proof. exact (CallRules.call_collect_list rec ip h w sp i e l). Qed.
+Print Assumptions call_collect_list.
 
